@@ -54,6 +54,9 @@ func runC07(r *core.Run) {
 		if c%6 == 3 {
 			kinds[1] = genTextBool
 		}
+		if c%6 == 5 {
+			kinds[1] = genTextDT
+		}
 		if c%5 == 2 {
 			kinds[4] = genBig // integers around 2^53, 10^18 and the int64 bounds, a few floats among them
 		}
